@@ -61,11 +61,14 @@ CHECKS = {
         note="File store; softhsm2-util actions and the SQLite store are not in this tier yet; two PIN values per user."),
     "C07": dict(
         category="exploration", design_ref="DESIGN.md 3/C07 + Appendix E",
-        technique="exhaustive enumeration of the full decision matrix (operation x key class/type x usage-flag variant x every CKM_* constant x allowed-list variant x slots.mechanisms configuration) on the real library with an only-if oracle from a reference table",
+        technique="exhaustive enumeration of the full decision matrix (operation x key class/type x usage-flag variant x every CKM_* constant x allowed-list variant x slots.mechanisms configuration) on the real library with an only-if oracle from a reference table; plus unmerged depth-first enumeration of every call sequence (depth 4 quick / 5 thorough, 16 actions) for the always-authenticate clause",
         text="~264 000 cells per configuration are executed on the real library (every CKM_* constant of PKCS#11 v2.40 + unknown values, 15 key kinds, "
              "one-hot flag variants, three allowed-list variants; digest-init / generate-key / generate-key-pair for the configuration clause). CKR_OK is "
              "judged against flag, key class/type table, allowed list and the advertised list of that configuration.",
-        note="Exhaustive over the stated grid (no sampling); the always-authenticate clause is not covered by this check yet; cells that fail for an unrelated "
+        note="Exhaustive over the stated grid (no sampling). Always-authenticate clause (checks/c07_aa.py): all 16^4 = 65 536 (quick) sequences over Sign/Decrypt Init with "
+             "always-authenticate RSA/EC keys and a plain key in two sessions, Sign, SignUpdate, SignFinal, Decrypt, context-specific login with the right / a wrong / the SO PIN "
+             "and in the other session, user login again, logout+login; an output-producing call may return CKR_OK only after a context-specific login with the user PIN in that "
+             "session since the Init (sign and decrypt only, as PKCS#11 defines the attribute). Cells that fail for an unrelated "
              "reason (e.g. single DES needs OpenSSL's legacy provider on this image) are not judged."),
     "C06": dict(
         category="model_checking", design_ref="DESIGN.md 3/C06",
